@@ -247,7 +247,10 @@ func C08(c *core.Ctx) {
 	for _, t := range append([]string{"", "\n", "\n\n\n", "   \n\t\n", "# notes only\n", "// nothing here", "* heading\n\n# c1\n// c2\n\n", "# é\n#\n#x",
 		"# commented out:\n# 2020-01-01 open Assets:A\n\n\n// 2020-01-02 \"t\"\n// Assets:A Assets:B 1 CHF\n",
 		"2020-01-01   open   Assets:A", "2020-01-01 open Assets:A\n", "\n\n2020-01-01   price  USD   0.90  CHF\n\n\n", "include \"x.knut\"", "\n# top\ninclude   \"sub/y.knut\"\n# bottom\n",
-		"\ufeff# bom and notes\n", "\r\n# crlf notes\r\n\r\n"}, append(quotedStringTexts(), oddJournals()...)...) {
+		"\ufeff# bom and notes\n", "\r\n# crlf notes\r\n\r\n",
+		// an account name of more than a million letters (fmt refuses widths above 10^6)
+		"2020-01-01 open Assets:" + strings.Repeat("a", 1000001) + "\n\n2020-01-02 \"x\"\nAssets:" + strings.Repeat("a", 1000001) + " Expenses:B 1 CHF\nExpenses:B Assets:C 2 CHF\n"},
+		append(quotedStringTexts(), oddJournals()...)...) {
 		if !seen[t] {
 			seen[t] = true
 			texts = append(texts, t)
